@@ -90,8 +90,28 @@ func resizeAlphabet() []CIn {
 	return ev
 }
 
+// staggered: the search starts from a cache holding three entries with different expiries that has been used
+// before (a cleanup pass ran, a Range ran, settings were read): whatever an implementation remembers from
+// earlier calls (a clock reading, the next expiry, a scratch buffer) is stale in some reachable state.
+func genStaggered(prop string) []*Scenario {
+	var out []*Scenario
+	prologue := []CIn{{Op: CSet, K: 0, V: 9, D: 1}, {Op: CAdvance, D: 2}, {Op: CDeleteExpired}, {Op: CRange}, {Op: CItems}, {Op: CCount},
+		{Op: CSet, K: 0, V: 1, D: 2}, {Op: CSet, K: 1, V: 2, D: 4}, {Op: CSet, K: 2, V: 3, D: 6}}
+	ev := []CIn{{Op: CAdvance, D: 1}, {Op: CAdvance, D: 2}, {Op: CDeleteExpired}, {Op: CCount}, {Op: CItems}, {Op: CRange},
+		{Op: CGet, K: 0}, {Op: CGet, K: 1}, {Op: CGetWithTTL, K: 2}, {Op: CDelete, K: 1}, {Op: CGetAndDelete, K: 2},
+		{Op: CSet, K: 0, V: 4, D: 3}, {Op: CGetAndRefresh, K: 2, D: 1}, {Op: CGetAndRefresh, K: 1, D: 5}, {Op: CGetOrSet, K: 1, V: 5, D: 1}, {Op: CSetForever, K: 2, V: 6}}
+	for twin := 0; twin < 2; twin++ {
+		cfg := CacheCfg{Twin: twin, HasIvl: true, Ivl: 0}
+		name := fmt.Sprintf("%s/seq-from-staggered-expiries/%s", prop, twinNames[twin])
+		sp := newCacheSeqSpecFrom(name, cfg, durNoExp, true, prologue, ev, 0, prop)
+		out = append(out, &Scenario{Name: name, Prop: prop, Seq: sp, ExpectOutcomes: 2})
+	}
+	return out
+}
+
 func genC01(tier string) []*Scenario {
 	out := genSeqCache("C01", lvlOf(tier))
+	out = append(out, genStaggered("C01")...)
 	for twin := 0; twin < 3; twin++ {
 		cfg := CacheCfg{Twin: twin, HasIvl: true, Ivl: 0}
 		name := fmt.Sprintf("C01/seq-with-resizes/%s", twinNames[twin])
